@@ -209,7 +209,7 @@ def fd_check(kind, p, box, h=1e-6):
 # ----------------------------------------------------------------------------
 
 FAMILIES = ["nonbonded", "bond", "angle", "dihedral", "mixed", "mixed-angle",
-            "dihedral-periodic"]
+            "dihedral-periodic", "mixed-order", "mixed-order"]
 
 
 def rand_unit(r):
@@ -253,17 +253,36 @@ class FGen:
         c["mapping"] = bool(r.rand() < 0.2)      # trivial 1:1 mapping or --no-map
         c["decimals"] = int(self.ch([4, 5, 6]))
         has_nb = family in ("nonbonded", "mixed", "mixed-angle")
-        kinds = {"nonbonded": [], "bond": ["bond"], "angle": ["angle"],
-                 "dihedral": ["dihedral"], "dihedral-periodic": ["dihedral"],
-                 "mixed": ["bond"] + (["dihedral"] if r.rand() < 0.6 else []),
-                 "mixed-angle": ["bond", "angle"] +
-                 (["dihedral"] if r.rand() < 0.5 else [])}[family]
-        chain = {"nonbonded": 1, "bond": int(self.ch([2, 2, 3, 4])),
-                 "angle": int(self.ch([3, 3, 4])), "dihedral": int(self.ch([4, 4, 5])),
-                 "dihedral-periodic": int(self.ch([4, 4, 5])),
-                 "mixed": 4 if "dihedral" in kinds else int(self.ch([2, 3])),
-                 "mixed-angle": 4 if "dihedral" in kinds else 3}[family]
+        periodic_of = {}          # interaction name -> periodic spline
+        if family == "mixed-order":
+            # 2..4 interactions in random order, 0..2 of them periodic
+            # dihedrals at any position of the options file
+            nper = int(self.ch([0, 1, 1, 1, 2, 2]))
+            ninter = int(r.randint(max(2, nper), 5))
+            pool = ["pair", "bond", "angle"] + (["dihedral"] if nper < 2 else [])
+            r.shuffle(pool)
+            chosen = pool[:ninter - nper]
+            has_nb = "pair" in chosen
+            kinds = [k for k in chosen if k != "pair"] + ["dihedral"] * nper
+            ndih = kinds.count("dihedral")
+            chain = 5 if ndih == 2 else 4 if ndih == 1 else \
+                3 if "angle" in kinds else int(self.ch([2, 3]))
+        else:
+            kinds = {"nonbonded": [], "bond": ["bond"], "angle": ["angle"],
+                     "dihedral": ["dihedral"], "dihedral-periodic": ["dihedral"],
+                     "mixed": ["bond"] + (["dihedral"] if r.rand() < 0.6 else []),
+                     "mixed-angle": ["bond", "angle"] +
+                     (["dihedral"] if r.rand() < 0.5 else [])}[family]
+            chain = {"nonbonded": 1, "bond": int(self.ch([2, 2, 3, 4])),
+                     "angle": int(self.ch([3, 3, 4])),
+                     "dihedral": int(self.ch([4, 4, 5])),
+                     "dihedral-periodic": int(self.ch([4, 4, 5])),
+                     "mixed": 4 if "dihedral" in kinds else int(self.ch([2, 3])),
+                     "mixed-angle": 4 if "dihedral" in kinds else 3}[family]
+            nper = 1 if family == "dihedral-periodic" else 0
         target = int(r.randint(20, 81))
+        if family == "mixed-order":
+            target = int(r.randint(60, 101))     # enough samples per interval
         nmol = max(2, target // chain)
         if family == "nonbonded":
             nmol = max(20, nmol)
@@ -290,7 +309,12 @@ class FGen:
                           "type2": "*" if wild else ("B" if cross else "A"),
                           "min": lo, "max": round(lo + k * st, 6), "step": st})
             c["cross"] = cross
+        ndone = {}
+        perflags = [True] * nper + [False] * (kinds.count("dihedral") - nper)
+        r.shuffle(perflags)
         for kind in kinds:
+            ndone[kind] = ndone.get(kind, 0) + 1
+            periodic = kind == "dihedral" and perflags.pop()
             if kind == "bond":
                 st = self.ch([0.02, 0.04, 0.05, 0.1])
                 lo = round(self.ch([0.1, 0.12, 0.15, 0.2]), 3)
@@ -305,11 +329,11 @@ class FGen:
                 k = int(r.randint(3, 9))
                 k = min(k, int((2.7 - lo) / st))
                 mx = round(lo + k * st, 6)
-            elif family == "dihedral-periodic":
+            elif periodic:
                 # the whole circle; the last interval absorbs the rounding of
                 # the step (the fit grid is min + i*step with the last point
                 # set to max)
-                k = int(r.randint(4, 13))
+                k = int(r.randint(4, 9 if family == "mixed-order" else 13))
                 lo, mx = -3.141592654, 3.141592654
                 st = round((mx - lo) / k, 9)
             else:
@@ -318,9 +342,10 @@ class FGen:
                 k = int(r.randint(3, 11))
                 k = max(2, min(k, int((3.0 - lo) / st + 1e-9)))
                 mx = round(lo + k * st, 6)
-            inter.append({"class": "bonded", "kind": kind, "name": kind + "1",
+            inter.append({"class": "bonded", "kind": kind,
+                          "name": kind + str(ndone[kind]),
                           "min": lo, "max": mx, "step": st})
-            if family == "dihedral-periodic":
+            if periodic:
                 inter[-1]["periodic"] = True
         # second bond group in some bonded systems
         if family == "bond" and chain >= 3 and r.rand() < 0.5:
@@ -351,6 +376,9 @@ class FGen:
             it["knots"] = [float(v) for v in yk]
         c["interactions"] = inter
         r.shuffle(c["interactions"])
+        # independent order of the groups in <bonded> / <cg_bonded>
+        c["bonded_order"] = [it["name"] for it in inter if it["class"] == "bonded"]
+        r.shuffle(c["bonded_order"])
         # bonded tuples per molecule (indices within the chain)
         tup = {}
         for it in inter:
@@ -362,6 +390,11 @@ class FGen:
                 allt = allt[0::2]
             if it["name"] == "bond2":
                 allt = allt[1::2]
+            if any(j["name"] == "dihedral2" for j in inter):
+                if it["name"] == "dihedral1":
+                    allt = allt[0::2]
+                if it["name"] == "dihedral2":
+                    allt = allt[1::2]
             tup[it["name"]] = allt
         c["tuples"] = tup
         # frames per block: enough samples per spline interval
@@ -386,6 +419,27 @@ class FGen:
             frames = frames * c["nblocks"]
             c["extra_frames"] = 0
         c["frames_pos"] = frames
+        # command-line variants (never both): --trj-force with a second
+        # trajectory of already known forces; --first-frame/--nframes with
+        # junk frames (random forces) before and after the used ones
+        c["trj_force"] = False
+        c["junk_before"] = c["junk_after"] = 0
+        v = r.rand()
+        if v < 0.2:
+            c["trj_force"] = True
+            c["dist_opt"] = self.ch([None, "1e-5", "1e-7"])
+        elif v < 0.4:
+            c["junk_before"] = int(r.randint(0, 4))
+            c["junk_after"] = int(r.randint(0 if c["junk_before"] else 1, 4))
+            c["extra_frames"] = 0
+            nuse = c["fpb"] * c["nblocks"]
+            c["frames_pos"] = c["frames_pos"][:nuse]
+            for _ in range(c["junk_before"] + c["junk_after"]):
+                fr = self.frame(c, box)
+                if fr is None:
+                    return None
+                c["frames_pos"].append(fr)     # reordered in build_fmatch_case
+        c["junk_seed"] = int(r.randint(1, 2 ** 31 - 1))
         return c
 
     def frame(self, c, box):
@@ -491,9 +545,11 @@ def fm_topology_xml(c):
 
 def bonded_xml(c, ind, nm, tag):
     out = [ind + "<%s>" % tag]
-    for it in c["interactions"]:
-        if it["class"] != "bonded":
-            continue
+    byname = {it["name"]: it for it in c["interactions"]}
+    order = c.get("bonded_order") or [it["name"] for it in c["interactions"]
+                                      if it["class"] == "bonded"]
+    for nm_ in order:
+        it = byname[nm_]
         out.append(ind + "  <%s>" % it["kind"])
         out.append(ind + "    <name>%s</name>" % it["name"])
         out.append(ind + "    <beads>")
@@ -546,8 +602,10 @@ def fm_options_xml(c):
     out = ["<cg>", "  <fmatch>",
            "    <constrainedLS>%s</constrainedLS>" %
            ("true" if c["constrained"] else "false"),
-           "    <frames_per_block>%d</frames_per_block>" % c["fpb"],
-           "  </fmatch>"]
+           "    <frames_per_block>%d</frames_per_block>" %
+           (c["fpb"] * (1 + c["nblocks"]) + 7 if c.get("too_few") else c["fpb"])] + \
+        (["    <dist>%s</dist>" % c["dist_opt"]] if c.get("dist_opt") else []) + \
+        ["  </fmatch>"]
     if c["nbsearch"]:
         out.append("  <nbsearch>%s</nbsearch>" % c["nbsearch"])
     for it in c["interactions"]:
@@ -687,6 +745,24 @@ def build_fmatch_case(c):
     c["undersampled"] = under
     c["min_samples_per_interval"] = cover
     c["forces_max"] = float(max(np.abs(F).max() for F in forces))
+    jr = np.random.RandomState(c.get("junk_seed", 1))
+    nj = c.get("junk_before", 0) + c.get("junk_after", 0)
+    if nj:
+        # the last nj generated frames are junk: random forces, placed before
+        # and after the frames selected by --first-frame / --nframes
+        nuse = len(txtpos) - nj
+        for k in range(nuse, len(txtpos)):
+            forces[k] = jr.standard_normal(forces[k].shape) * c["forces_max"]
+        order = list(range(nuse, nuse + c["junk_before"])) + \
+            list(range(nuse)) + list(range(nuse + c["junk_before"], len(txtpos)))
+        txtpos = [txtpos[k] for k in order]
+        forces = [forces[k] for k in order]
+    c["trj_force_text"] = None
+    if c.get("trj_force"):
+        known = [np.round(jr.standard_normal(F.shape) * 0.3 * c["forces_max"], 3)
+                 for F in forces]
+        c["trj_force_text"] = fm_dump(c, txtpos, known, box, KCAL_IT * 10.0)
+        forces = [F + K for F, K in zip(forces, known)]
     c["trj_text"] = fm_dump(c, txtpos, forces, box, KCAL_IT * 10.0)
     return c
 
@@ -694,6 +770,8 @@ def build_fmatch_case(c):
 def fm_files(c):
     files = {"topol.xml": fm_topology_xml(c), "settings.xml": fm_options_xml(c),
              "traj.dump": c["trj_text"]}
+    if c.get("trj_force_text"):
+        files["known.dump"] = c["trj_force_text"]
     if c["mapping"]:
         if c["family"] == "nonbonded" and c.get("cross"):
             files["map_MA.xml"] = fm_mapping_xml(c, "MA", "A")
@@ -712,6 +790,11 @@ def fm_command(c, exe):
         cmd += ["--cg", maps]
     else:
         cmd.append("--no-map")
+    if c.get("trj_force_text"):
+        cmd += ["--trj-force", "known.dump"]
+    if c.get("junk_before", 0) or c.get("junk_after", 0):
+        cmd += ["--first-frame", str(c["junk_before"] + 1), "--nframes",
+                str(c["fpb"] * c["nblocks"])]
     return cmd
 
 
@@ -812,7 +895,16 @@ def judge_fmatch(c, wd):
                           "output grid is not min + i*out_step", det))
 
         else:
-            fails.append(("fmatch/%s/%s-ls/table-mismatch" % (fam, ls),
+            kfam = fam
+            if fam == "mixed-order":
+                # interaction kind and its position in the options file
+                pos = [i["name"] for i in c["interactions"]].index(name)
+                it_ = c["interactions"][pos]
+                kfam = "mixed-order/%s%s-%s" % (
+                    it_.get("kind", "pair"),
+                    "-periodic" if it_.get("periodic") else "",
+                    "first" if pos == 0 else "later")
+            fails.append(("fmatch/%s/%s-ls/table-mismatch" % (kfam, ls),
                           "fitted force table differs from the generating "
                           "force function (inside the spline space, every "
                           "interval sampled >= %d times per block)" % MIN_SAMPLES,
@@ -835,6 +927,9 @@ def fm_witness(c, files, cmd):
                            "fpb", "extra_frames", "nbsearch", "mapping", "box",
                            "chain", "nmol", "tuples", "min_samples_per_interval",
                            "cseed")}
+    for k in ("trj_force", "junk_before", "junk_after", "too_few",
+              "bonded_order", "dist_opt"):
+        w[k] = c.get(k)
     w["interactions"] = c["interactions"]
     w["cmd"] = " ".join(["csg_fmatch"] + cmd[1:])
     w["files"] = files
@@ -877,6 +972,8 @@ def fmatch_worker(a):
             continue
         cnt("gradients_validated_by_finite_differences")
         c["cseed"] = cseed
+        # frames_per_block larger than the trajectory: documented error exit
+        c["too_few"] = bool(g.r.rand() < 0.04)
         wd = os.path.join(scratch, "f%d_%d" % (shard, ci))
         os.makedirs(wd, exist_ok=True)
         files = fm_files(c)
@@ -885,6 +982,40 @@ def fmatch_worker(a):
         cmd = fm_command(c, exe)
         rc, out, err, to = run_exe(cmd, wd)
         cnt("csg_fmatch_runs")
+        if c["too_few"] and not to:
+            import vfcore
+            fam = "fmatch/too-few-frames/" + \
+                ("constrained" if c["constrained"] else "plain")
+            if rc != 0 and vfcore.sanitizer_key(err) is None and \
+                    "No blocks have been" in err:
+                fams[fam] = fams.get(fam, 0) + 1
+                evals += 1
+            elif rc == 0:
+                fams[fam] = fams.get(fam, 0) + 1
+                evals += 1
+                emit({"t": "violation", "key": "fmatch/too-few-frames/no-error",
+                      "what": "frames_per_block exceeds the trajectory but "
+                      "csg_fmatch reports success",
+                      "witness": fm_witness(c, files, cmd)})
+            else:
+                emit({"t": "abnormal", "what": "csg_fmatch (too few frames) "
+                      "case seed %d" % cseed, "rc": rc, "timed_out": to,
+                      "err": err[-6000:], "witness": fm_witness(c, files, cmd)})
+            shutil.rmtree(wd, ignore_errors=True)
+            continue
+        if c["trj_force"]:
+            cnt("cases_trj_force")
+        if c["junk_before"] or c["junk_after"]:
+            cnt("cases_first_frame_nframes")
+        if family == "mixed-order":
+            bonded = [it for it in c["interactions"] if it["class"] == "bonded"]
+            nper = sum(1 for it in bonded if it.get("periodic"))
+            cnt("mixed_order/periodic_dihedrals_%d" % nper)
+            cnt("mixed_order/interactions_%d" % len(c["interactions"]))
+            if any(it.get("periodic") for it in bonded[1:]):
+                cnt("mixed_order/periodic_not_first_bonded")
+            if any(it.get("periodic") for it in c["interactions"][1:]):
+                cnt("mixed_order/periodic_not_first_in_file")
         if to or rc != 0:
             emit({"t": "abnormal", "what": "csg_fmatch case seed %d" % cseed,
                   "rc": rc, "timed_out": to, "err": err[-6000:],
@@ -967,6 +1098,13 @@ def imc_case(r):
     # r > 0, chosen relative to ||A||^2 so that the problem is well posed
     s = np.linalg.svd(A, compute_uv=False)
     reg = float(s[0] ** 2 * 10 ** r.uniform(-6, 1))
+    noreg = False
+    if r.rand() < 0.1:
+        # -r omitted (default 0): only with a well-conditioned A
+        U, _ = np.linalg.qr(r.standard_normal((n, n)))
+        V, _ = np.linalg.qr(r.standard_normal((n, n)))
+        A = ((U * 10 ** r.uniform(-1.5, 0, size=n)) @ V.T) * scale
+        sym, reg, noreg = False, 0.0, True
     digits = int(r.randint(6, 12))
     nint = int(r.randint(1, 4))
     nint = min(nint, n)
@@ -979,6 +1117,7 @@ def imc_case(r):
     x = np.round(np.concatenate([0.1 + 0.02 * np.arange(bounds[k + 1] - bounds[k])
                                  for k in range(nint)]), 6)
     return {"n": n, "sym": sym, "A": A, "b": b, "reg": reg, "digits": digits,
+            "noreg": noreg,
             "bounds": bounds, "names": names, "order": order, "x": x}
 
 
@@ -990,7 +1129,7 @@ def imc_files(c):
     for k in c["order"]:
         idx += "%s %d:%d\n" % (c["names"][k], c["bounds"][k] + 1,
                                c["bounds"][k + 1])
-    regtxt = "%.*g" % (d, c["reg"])
+    regtxt = "0" if c.get("noreg") else "%.*g" % (d, c["reg"])
     return {"in.gmc": gmc, "in.imc": imc, "in.idx": idx}, regtxt
 
 
@@ -1009,6 +1148,8 @@ def judge_imc(c, files, regtxt, wd):
     xs = np.zeros(n)
     seen = np.zeros(n, dtype=bool)
     fam = "symmetric-A" if c["sym"] else "nonsymmetric-A"
+    if c.get("noreg"):
+        fam = "r-omitted"
     for k in range(len(c["names"])):
         fn = os.path.join(wd, c["names"][k] + ".dpot.imc")
         lo, hi = c["bounds"][k], c["bounds"][k + 1]
@@ -1082,7 +1223,9 @@ def imc_worker(a):
         os.makedirs(wd, exist_ok=True)
         for nme, t in files.items():
             open(os.path.join(wd, nme), "w").write(t)
-        cmd = [exe, "-i", "in.imc", "-g", "in.gmc", "-n", "in.idx", "-r", regtxt]
+        cmd = [exe, "-i", "in.imc", "-g", "in.gmc", "-n", "in.idx"]
+        if not c["noreg"]:
+            cmd += ["-r", regtxt]
         rc, out, err, to = run_exe(cmd, wd, 300)
         wit = {"cmd": " ".join(["csg_imc_solve"] + cmd[1:]), "files": files,
                "n": c["n"], "symmetric": c["sym"], "r": regtxt}
@@ -1102,6 +1245,8 @@ def imc_worker(a):
             continue
         fam = "imc_solve/%s/%d-interactions" % (
             "symmetric-A" if c["sym"] else "nonsymmetric-A", len(c["names"]))
+        if c["noreg"]:
+            fam = "imc_solve/r-omitted/%d-interactions" % len(c["names"])
         fams[fam] = fams.get(fam, 0) + 1
         evals += 1
         if c["n"] >= 2:
